@@ -24,6 +24,25 @@ pub fn check_range(c: &RangeCase) -> CheckResult {
     let m = c.map();
     vensure!(m.len() == c.combos.len(), "bad-case", "duplicate combos");
     let r = to_espada(&m);
+    check_views(&r, &m, fp_of(&format!("{:?}", c.combos.iter().map(|c| (c.0, c.1, c.2.to_bits())).collect::<Vec<_>>())))
+}
+
+/// a range obtained by PARSING text (any well-formed token in either spelling, token lists): its two
+/// views must split the combos it holds in the same way
+pub fn check_parsed(text: &String) -> CheckResult {
+    let Ok(r) = text.parse::<espada::hand_range::HandRange>() else {
+        return Ok(Outcome::default());
+    };
+    let m = espada_map(&r);
+    vensure!(m.len() == r.card_pairs().len(), "range-holds-combo-twice", "range {:?} holds {} entries for {} distinct combos", text, r.card_pairs().len(), m.len());
+    check_views(&r, &m, hash_str(text)).map_err(|mut f| {
+        f.what = format!("{} [range parsed from {:?}]", f.what, text.chars().take(120).collect::<String>());
+        f
+    })
+}
+
+pub fn check_views(r: &espada::hand_range::HandRange, m: &RangeMap, fp: u64) -> CheckResult {
+    let m = m.clone();
     let (complete, left) = split(&m);
     // view 1: rank pairs
     let got_rp = r.rank_pairs();
@@ -93,7 +112,7 @@ pub fn check_range(c: &RangeCase) -> CheckResult {
     if m.values().any(|w| w.to_bits() == (-0.0f32).to_bits()) && m.values().any(|w| w.to_bits() == 0) {
         cls |= 16;
     }
-    Ok(Outcome::new(almost || !complete.is_empty(), fp_of(&format!("{:?}", c.combos.iter().map(|c| (c.0, c.1, c.2.to_bits())).collect::<Vec<_>>())), cls))
+    Ok(Outcome::new(almost || !complete.is_empty(), fp, cls))
 }
 pub const CLASSES: &[&str] = &["all_present_one_weight_differs", "exactly_one_combo_missing", "has_complete_rank_pair", "has_leftovers", "signed_zero_weights"];
 
@@ -179,7 +198,7 @@ fn background(seed: u64) -> Vec<(u8, u8, f32)> {
 }
 
 pub fn run(ctx: &mut Ctx) {
-    ctx.rule = "(1) exhaustive inside one rank pair: every absent/weight-a/weight-b pattern of its combos - all 3^6 x 13 pockets, all 3^4 x 78 suited, all 3^12 = 531,441 x (quick 6, thorough all 78) offsuit rank pairs - embedded in a seeded background of neighbouring complete rank pairs and stray combos; the pocket/suited patterns again with the two weights +0.0 / -0.0; (2) proptest offsuit patterns biased to 'all but one present' and 'one weight differs' over all 78 offsuit pairs; (3) C06's row-pattern ranges with partial cells and arbitrary weights. Oracle: rank_pairs() == the model's complete cells (both directions, weight bit-equal, high card first), orphan_card_pairs() == model leftovers, every combo covered exactly once by the two views. Non-trivial = some rank pair complete or almost complete (all present with one differing weight, or exactly one combo missing); distinct by range contents.".into();
+    ctx.rule = "(1) exhaustive inside one rank pair: every absent/weight-a/weight-b pattern of its combos - all 3^6 x 13 pockets, all 3^4 x 78 suited, all 3^12 = 531,441 x (quick 6, thorough all 78) offsuit rank pairs - embedded in a seeded background of neighbouring complete rank pairs and stray combos; the pocket/suited patterns again with the two weights +0.0 / -0.0; (2) proptest offsuit patterns biased to 'all but one present' and 'one weight differs' over all 78 offsuit pairs; (3) C06's row-pattern ranges with partial cells and arbitrary weights; (4) ranges obtained by parsing every well-formed token alone (either rank / card order) and generated token lists. Oracle: rank_pairs() == the model's complete cells (both directions, weight bit-equal, high card first), orphan_card_pairs() == model leftovers, every combo covered exactly once by the two views. Non-trivial = some rank pair complete or almost complete (all present with one differing weight, or exactly one combo missing); distinct by range contents.".into();
     ctx.assumptions = vec!["entries made of one card twice (possible through FromIterator) are legal keys: they belong to no rank pair and stay among the leftovers".into(), "weights finite, >= 0, not NaN (NaN != NaN would make 'same weight' meaningless); -0.0 is a legal weight here and is the same weight as +0.0 (f32 equality), so reported weights are compared with ==".into()];
     let cells = all_cells();
     // pockets and suited: all patterns
@@ -259,6 +278,13 @@ pub fn run(ctx: &mut Ctx) {
     );
     let cases = ctx.tier.pick(40_000, 600_000);
     ctx.run_random_brief(StreamCfg::new("row_pattern_ranges", CLASSES, cases), || range_strategy(8), check_range, |c| json!({"combos": c.combos.len()}));
+    // ranges obtained by parsing: every well-formed token alone (either rank / card order), and
+    // generated token lists
+    let toks = all_tokens();
+    let n = toks.len() as u64;
+    ctx.run_enum_brief(StreamCfg::new("parsed_single_tokens", CLASSES, n), n, true, |i| toks[i as usize].text(), check_parsed, |t| json!(t));
+    let cases = ctx.tier.pick(3_000, 40_000);
+    ctx.run_random_brief(StreamCfg::new("parsed_token_lists", CLASSES, cases).shrink(200), || crate::props::c05::list_strategy(8).prop_map(|l| crate::props::c05::list_text(&l)), check_parsed, |t| json!(t));
     ctx.extra.insert("exhaustive_over".into(), json!(format!("all 3^6 patterns x 13 pockets, all 3^4 x 78 suited, all 3^12 x {} offsuit rank pairs ({})", chosen.len(), chosen.iter().map(|c| c.name()).collect::<Vec<_>>().join(","))));
     if ctx.tier == Tier::Thorough && !ctx.failed() {
         crate::fuzzrun::campaign(ctx, "fz_range", 1000, 16, 400);
@@ -268,6 +294,7 @@ pub fn run(ctx: &mut Ctx) {
 pub fn replay(stream: &str, path: &str, case: &Value) -> i32 {
     match stream {
         "row_pattern_ranges" => replay_case::<RangeCase>("C12", path, case, check_range),
+        "parsed_single_tokens" | "parsed_token_lists" => replay_case::<String>("C12", path, case, check_parsed),
         _ => replay_case::<PatternCase>("C12", path, case, check_pattern),
     }
 }
